@@ -130,6 +130,7 @@ def control(proc, what, arg=None, who='ext'):
         'paused_before': proc.paused,
         'n_trace': len(w.trace.get(proc.pid, [])),
         'seq_start': len(w.futs),
+        'sample': w.extra.get('n_samples'),  # index of the next observation sample (calls from steps, hooks, listeners too)
         'begin': w.extra.setdefault('_begin', [0]).__setitem__(0, w.extra['_begin'][0] + 1) or w.extra['_begin'][0],
         'ret': None,
         'raised': None,
@@ -143,6 +144,14 @@ def control(proc, what, arg=None, who='ext'):
             ret = proc.play()
         elif what == 'kill':
             ret = proc.kill(arg)
+        elif what in ('killw', 'pausew'):
+            # the caller drops its request at once: it cancels the future that was handed out for it (an
+            # asyncio.wait_for(..., 0) does just that); recorded as the request it is, marked withdrawn
+            ret = proc.kill(arg) if what == 'killw' else proc.pause(arg)
+            rec['what'] = what[:-1]
+            if asyncio.isfuture(ret) and not ret.done():
+                ret.cancel()
+                rec['withdrawn'] = True
         elif what == 'resume':
             ret = proc.resume() if arg == NOVALUE else proc.resume(arg)
         elif what == 'fail':
@@ -153,6 +162,8 @@ def control(proc, what, arg=None, who='ext'):
             ret = proc.future().cancel()
         elif what == 'status':
             ret = proc.set_status(arg)
+        elif what == 'out':
+            ret = proc.out(arg[0], dec(arg[1]))  # an output emitted from a hook (a summary written at the very end)
         elif what == 'close':
             ret = proc.close()
         else:
@@ -160,7 +171,7 @@ def control(proc, what, arg=None, who='ext'):
         rec['ret'] = describe_ret(ret)
         if asyncio.isfuture(ret):
             rec['_fut'] = ret
-    except Exception as exc:  # noqa: BLE001 - the oracle decides what a raise means
+    except (Exception, asyncio.CancelledError) as exc:  # noqa: BLE001 - the oracle decides what a raise means
         rec['raised'] = f'{type(exc).__name__}: {str(exc)[:120]}'
         rec['_raised_exc'] = exc
     rec['state_after'] = proc.state.value
@@ -194,15 +205,32 @@ class ProgListener(ProcessListener):
         w = world.cur()
         pid = process.pid
         w.notifications.setdefault(pid, []).append([name, [_summ(a) for a in args]])
+        w.extra.setdefault('noted_states', []).append((pid, name, process.state.value))
         cnt = w.listener_counts.get((pid, name), 0) + 1
         w.listener_counts[(pid, name)] = cnt
         for plan in w.listener_plan.get(pid, []):
             if plan['on'] == name and plan['occ'] == cnt:
                 do = plan['do']
-                control(process, do[0], do[1] if len(do) > 1 else None, who=f'listener:{name}')
+                if do[0] == 'unsubscribe':
+                    # a one-shot listener: it has heard what it waited for and takes itself off the process
+                    process.remove_process_listener(self)
+                    w.extra.setdefault('unsubscribed', []).append((name, cnt))
+                elif do[0] == 'raise_cancelled':
+                    # the listener awaited/read something that was cancelled: not an error of the process, and not an
+                    # Exception either
+                    raise asyncio.CancelledError()
+                elif do[0] == 'subscribe':
+                    # ... or it puts another listener on the process
+                    other = ProcessListener()
+                    w.extra.setdefault('extra_listeners', []).append(other)
+                    process.add_process_listener(other)
+                else:
+                    control(process, do[0], do[1] if len(do) > 1 else None, who=f'listener:{name}')
         lf = w.listener_fault
         if lf is not None and lf['on'] == name and lf['occ'] == cnt:
             w.fault_fired = ('listener', name, cnt)
+            if lf.get('unsubscribe'):
+                process.remove_process_listener(self)  # (a listener that gives up: it takes itself off, then fails)
             if lf.get('unprintable'):
                 raise UnprintableFault(f'listener:{name}:{cnt}')
             raise InjectedFault(f'listener:{name}:{cnt}')
@@ -310,6 +338,11 @@ def _make_hook(name):
 
 for _h in HOOKS:
     setattr(HookMixin, _h, _make_hook(_h))
+
+
+# The state map of the library's base class is looked at before any subclass is used (both orders are legitimate; this is
+# the one in which something a subclass wrongly inherits from an already built base class can show)
+Process.get_states_map()
 
 
 # --------------------------------------------------------------------------------------------
@@ -502,6 +535,8 @@ class ProgBase(HookMixin, ContextMixin, Process):
         if kind == 'wait':
             msg = ret[2] if len(ret) > 2 else None
             data = ret[3] if len(ret) > 3 else None
+            if ret[1] is None:
+                return cmds['Wait'](msg=msg, data=dec(data))  # parked without a continuation (only kill / fail end it)
             return cmds['Wait'](getattr(self, step_name(ret[1])), msg, dec(data))
         if kind == 'value':
             return dec(ret[1])
